@@ -149,7 +149,7 @@ func (cb *CircuitBreaker) transitTo(state State, reason string)
   requires cb != nil && policyOK(cb.policy) && 0 <= cb.state && cb.state <= 4 && state <= 4
   modifies cb.state, cb.transitTime, cb.stateID, cb.window, cb.numberOfCallsInHalfOpen, clock
   ensures same-state-noop: state == old(cb.state) ==> cb.state == old(cb.state) && cb.stateID == old(cb.stateID) && cb.transitTime == old(cb.transitTime) && cb.window == old(cb.window) && cb.numberOfCallsInHalfOpen == old(cb.numberOfCallsInHalfOpen) && clock == old(clock)
-  ensures transit: state != old(cb.state) ==> cb.state == state && cb.stateID == old(cb.stateID) + 1 && cb.transitTime == clock && clock >= old(clock)
+  ensures transit: state != old(cb.state) ==> cb.state == state && cb.stateID == old(cb.stateID) + 1 && old(clock) <= cb.transitTime && cb.transitTime <= clock
   ensures closed-fresh-window: state != old(cb.state) && state == StateClosed ==> fresh(cb.window) && wfWindow(cb.window) && wTotal(cb.window) == 0 && wSize(cb.window) == cb.policy.SlidingWindowSize && (cb.policy.SlidingWindowType == CountBased ? isCBW(cb.window) : isTBW(cb.window)) && cb.numberOfCallsInHalfOpen == old(cb.numberOfCallsInHalfOpen)
   ensures half-open-fresh-trials: state != old(cb.state) && state == StateHalfOpen ==> fresh(cb.window) && isCBW(cb.window) && wfWindow(cb.window) && wTotal(cb.window) == 0 && wSize(cb.window) == cb.policy.PermittedNumberOfCallsInHalfOpen && cb.numberOfCallsInHalfOpen == 0
   ensures other-keeps-window: state != old(cb.state) && state != StateClosed && state != StateHalfOpen ==> cb.window == old(cb.window) && cb.numberOfCallsInHalfOpen == old(cb.numberOfCallsInHalfOpen)
@@ -183,7 +183,7 @@ func (cb *CircuitBreaker) RecordResult(stateID uint32, hasErr bool, d time.Durat
   modifies cb.state, cb.transitTime, cb.stateID, cb.window, cb.numberOfCallsInHalfOpen, cb.pushedTotal, cb.pushedFailure, cb.pushedSlow, clock, allof("util/circuitbreaker.CountBasedWindow.total"), allof("util/circuitbreaker.CountBasedWindow.slow"), allof("util/circuitbreaker.CountBasedWindow.failure"), allof("util/circuitbreaker.CountBasedWindow.bucketIdx"), allof("elem<util/circuitbreaker.CallResult>"), allof("util/circuitbreaker.TimeBasedWindow.total"), allof("util/circuitbreaker.TimeBasedWindow.slow"), allof("util/circuitbreaker.TimeBasedWindow.failure"), allof("util/circuitbreaker.TimeBasedWindow.beginAt"), allof("util/circuitbreaker.TimeBasedWindow.firstBucket"), allof("elem<util/circuitbreaker.timeBasedWindowBucket>.total"), allof("elem<util/circuitbreaker.timeBasedWindowBucket>.slow"), allof("elem<util/circuitbreaker.timeBasedWindowBucket>.failure")
   ensures stale-result-ignored: stateID != old(cb.stateID) ==> cb.state == old(cb.state) && cb.stateID == old(cb.stateID) && cb.window == old(cb.window) && cb.numberOfCallsInHalfOpen == old(cb.numberOfCallsInHalfOpen) && wTotal(cb.window) == old(wTotal(cb.window)) && wFailure(cb.window) == old(wFailure(cb.window)) && wSlow(cb.window) == old(wSlow(cb.window))
   ensures below-minimum-keeps-state: stateID == old(cb.stateID) && cb.pushedTotal < minCalls(cb, old(cb.state)) ==> cb.state == old(cb.state) && cb.stateID == old(cb.stateID)
-  ensures threshold-opens: stateID == old(cb.stateID) && cb.pushedTotal >= minCalls(cb, old(cb.state)) && (cb.pushedFailure * 100 / cb.pushedTotal >= cb.policy.FailureRateThreshold || cb.pushedSlow * 100 / cb.pushedTotal >= cb.policy.SlowCallRateThreshold) ==> cb.state == StateOpen && (old(cb.state) != StateOpen ==> cb.stateID == old(cb.stateID) + 1 && cb.transitTime == clock)
+  ensures threshold-opens: stateID == old(cb.stateID) && cb.pushedTotal >= minCalls(cb, old(cb.state)) && (cb.pushedFailure * 100 / cb.pushedTotal >= cb.policy.FailureRateThreshold || cb.pushedSlow * 100 / cb.pushedTotal >= cb.policy.SlowCallRateThreshold) ==> cb.state == StateOpen && (old(cb.state) != StateOpen ==> cb.stateID == old(cb.stateID) + 1 && old(clock) <= cb.transitTime && cb.transitTime <= clock)
   ensures trials-close: stateID == old(cb.stateID) && old(cb.state) == StateHalfOpen && cb.pushedTotal >= minCalls(cb, StateHalfOpen) && !(cb.pushedFailure * 100 / cb.pushedTotal >= cb.policy.FailureRateThreshold || cb.pushedSlow * 100 / cb.pushedTotal >= cb.policy.SlowCallRateThreshold) ==> cb.state == StateClosed && cb.stateID == old(cb.stateID) + 1 && wTotal(cb.window) == 0
   ensures healthy-closed-stays: stateID == old(cb.stateID) && old(cb.state) == StateClosed && !(cb.pushedTotal >= minCalls(cb, StateClosed) && (cb.pushedFailure * 100 / cb.pushedTotal >= cb.policy.FailureRateThreshold || cb.pushedSlow * 100 / cb.pushedTotal >= cb.policy.SlowCallRateThreshold)) ==> cb.state == StateClosed && cb.stateID == old(cb.stateID)
   ensures pushed-counts: stateID == old(cb.stateID) ==> cb.pushedTotal >= 1 && cb.pushedFailure + cb.pushedSlow <= cb.pushedTotal && cb.pushedTotal <= old(wTotal(cb.window)) + 1
